@@ -232,6 +232,8 @@ def pyval(av):
     if isinstance(av, Val) and is_const(av.term):
         return av.term.args[0]
     if isinstance(av, Seq):
+        if av.kind == "match":
+            raise NotConst("match object")
         vals = [pyval(x) for x in av.items]
         return tuple(vals) if av.kind == "tuple" else vals
     if isinstance(av, DictV):
